@@ -606,3 +606,99 @@ func runMerge(c *Ctx, prop string) {
 		c.Check(len(bad) == 0, rule, fnName(nt), "split", nt.Pos(), "key = t[:Index(t,':')], value = t[Index(t,':')+1:], every token kept", strings.Join(uniqStrings(bad), "; "))
 	}
 }
+
+// runInjectorState: the injector is a pure function of the file it is given: package `file`
+// keeps no state between files or between fields. Every package-level variable of `file`
+// is assigned only in package initialisation and is never mutated afterwards (no store, no
+// map update/delete, no element store, no mutating method call on sync.Map-like values); only
+// compiled regexps, which are safe to share, are allowed to be used from the functions.
+// A memo of parsed tags, a shared FileSet, a scratch buffer kept in a global all break "the
+// result for one field/file depends only on that field/file" — and with it idempotence.
+func runInjectorState(c *Ctx, rule string) {
+	p := c.P
+	c.Rule(rule, "package file keeps no mutable package-level state: every global is written only during package initialisation and is a compiled regexp or plain constant data never mutated by a function", 1)
+	sp := p.Pkg("file")
+	if sp == nil {
+		c.Unk(rule, "file", "globals", token.NoPos, "package file not loaded")
+		return
+	}
+	var globals []*ssa.Global
+	for _, m := range sp.Members {
+		if g, ok := m.(*ssa.Global); ok {
+			globals = append(globals, g)
+		}
+	}
+	sortGlobals(globals)
+	for _, g := range globals {
+		c.Sites++
+		var bad []string
+		elem := g.Type().(*types.Pointer).Elem()
+		safeType := isNamed(elem, "regexp", "Regexp") || func() bool {
+			if pt, ok := elem.(*types.Pointer); ok {
+				return isNamed(pt.Elem(), "regexp", "Regexp")
+			}
+			_, isBasic := elem.Underlying().(*types.Basic)
+			return isBasic
+		}()
+		for _, fn := range p.Funcs {
+			if fn.Pkg != sp {
+				continue
+			}
+			isInit := fn.Name() == "init" && fn.Signature.Recv() == nil && fn.Parent() == nil
+			for _, b := range fn.Blocks {
+				for _, ins := range b.Instrs {
+					switch x := ins.(type) {
+					case *ssa.Store:
+						if x.Addr == g && !isInit {
+							bad = append(bad, fnName(fn)+" assigns it at "+p.Pos(x.Pos()))
+						}
+					case *ssa.UnOp:
+						if x.Op != token.MUL || x.X != g || isInit {
+							continue
+						}
+						// uses of the loaded value
+						for _, r := range refs(x) {
+							switch u := r.(type) {
+							case *ssa.MapUpdate:
+								if u.Map == x {
+									bad = append(bad, fnName(fn)+" updates the map at "+p.Pos(u.Pos()))
+								}
+							case *ssa.IndexAddr:
+								for _, r2 := range refs(u) {
+									if st, ok := r2.(*ssa.Store); ok && st.Addr == u {
+										bad = append(bad, fnName(fn)+" stores into it at "+p.Pos(st.Pos()))
+									}
+								}
+							case *ssa.Call:
+								if calleeName(&u.Call) == "builtin.delete" || calleeName(&u.Call) == "builtin.append" {
+									bad = append(bad, fnName(fn)+" mutates it ("+calleeName(&u.Call)+") at "+p.Pos(u.Pos()))
+								}
+							}
+						}
+						if !safeType {
+							bad = append(bad, fnName(fn)+" reads the mutable-typed global at "+p.Pos(x.Pos())+" (its contents can be changed through the shared reference)")
+						}
+					case ssa.CallInstruction:
+						// method calls with the global's address as receiver (sync.Map, bytes.Buffer, token.FileSet held by value ...)
+						cc := x.Common()
+						if len(cc.Args) > 0 && cc.Args[0] == g && !isInit {
+							bad = append(bad, fnName(fn)+" calls "+calleeName(cc)+" on it at "+p.Pos(x.Pos()))
+						}
+					}
+				}
+			}
+		}
+		c.Check(len(bad) == 0, rule, "file."+g.Name(), "immutable", g.Pos(), "written only by package initialisation", "package-level state in the injector: "+uniqJoin(bad, 3)+" — what one field or file leaves there changes the result for the next")
+	}
+	if len(globals) == 0 {
+		c.OK(rule, "file", "immutable", token.NoPos, "package file has no package-level variables")
+	}
+}
+
+func sortGlobals(gs []*ssa.Global) {
+	for i := 1; i < len(gs); i++ {
+		for j := i; j > 0 && gs[j-1].Name() > gs[j].Name(); j-- {
+			gs[j-1], gs[j] = gs[j], gs[j-1]
+		}
+	}
+}
